@@ -106,6 +106,7 @@ def run(chk: Check) -> None:
     run_by_name_binding(chk, ix)
     run_duplicate_exemptions(chk, ix)
     run_comparison_tables(chk, ix)
+    run_boolean_combination_tables(chk, ix)
 
     # ---------------- R12.1
     r1 = chk.rule("R12.1", "in every branch guarded by <name> == '<operator spelling>', the Python operator applied to the operands / the IR opcode selected is the one spelled, with operands in parameter order", floor=30)
@@ -802,3 +803,100 @@ def run_comparison_tables(chk: Check, ix) -> None:
             r.ok(key, f.loc(found[sym]))
         else:
             r.violation(key, f.loc(found[sym]), f"for {names[wrong[0]]} the entry `{norm(found[sym])[:60]}` answers {not truth[sym](wrong[0])}, Python's `{sym}` answers {truth[sym](wrong[0])}: `if sys.version_info[:2] {sym} (3, 12)` on target 3.12 marks the branch that runs as unreachable")
+
+
+TRUTH_CODES = {"ALWAYS_TRUE": True, "MYPY_TRUE": True, "ALWAYS_FALSE": False, "MYPY_FALSE": False, "TRUTH_VALUE_UNKNOWN": None}
+
+
+def run_boolean_combination_tables(chk: Check, ix) -> None:
+    """R12.9: the static value of `a or b` / `a and b` never claims more than three-valued logic gives."""
+    r9 = chk.rule("R12.9", "reachability.infer_condition_value combines the static values of the operands of `or` / `and` with two if-chains over `left`, `right` and `results = {left, right}`. The five codes stand for what the condition is *under mypy* (ALWAYS_TRUE, MYPY_TRUE: true; ALWAYS_FALSE, MYPY_FALSE: false; TRUTH_VALUE_UNKNOWN: not known). Each chain is evaluated for all 25 operand pairs: whenever it answers true (false), Kleene's three-valued `or` / `and` of the operands' values is true (false); answering unknown is always allowed. Otherwise a branch that can be taken at run time (`sys.platform == 'win32' or flag` on linux) is treated as unreachable and not checked", floor=2)
+    f = ix.func("mypy.reachability.infer_condition_value")
+    chains: dict[str, ast.If] = {}
+    for i in ast.walk(f.node):
+        if isinstance(i, ast.If) and isinstance(i.test, ast.Compare) and norm(i.test.left).endswith(".op") and isinstance(i.test.ops[0], ast.Eq) and isinstance(i.test.comparators[0], ast.Constant) and i.test.comparators[0].value in ("or", "and"):
+            if i.body and isinstance(i.body[0], ast.If):
+                chains[i.test.comparators[0].value] = i.body[0]
+    if set(chains) != {"or", "and"}:
+        raise AnalysisError(f"infer_condition_value: if-chains found for {sorted(chains)} (expected `or` and `and`)")
+
+    class NoEval(Exception):
+        pass
+
+    def ev(e: ast.expr, env):
+        if isinstance(e, ast.Name):
+            if e.id in env:
+                return env[e.id]
+            if e.id in TRUTH_CODES:
+                return e.id
+        if isinstance(e, ast.Set):
+            return {ev(x, env) for x in e.elts}
+        if isinstance(e, ast.Tuple):
+            return tuple(ev(x, env) for x in e.elts)
+        if isinstance(e, ast.UnaryOp) and isinstance(e.op, ast.Not):
+            return not ev(e.operand, env)
+        if isinstance(e, ast.BoolOp):
+            vs = [ev(x, env) for x in e.values]
+            return all(vs) if isinstance(e.op, ast.And) else any(vs)
+        if isinstance(e, ast.Compare):
+            vals = [ev(e.left, env)] + [ev(c, env) for c in e.comparators]
+            ok = True
+            for a, o, b in zip(vals, e.ops, vals[1:]):
+                if isinstance(o, ast.Eq):
+                    ok = ok and a == b
+                elif isinstance(o, ast.NotEq):
+                    ok = ok and a != b
+                elif isinstance(o, ast.In):
+                    ok = ok and a in b
+                elif isinstance(o, ast.NotIn):
+                    ok = ok and a not in b
+                elif isinstance(o, ast.LtE):
+                    ok = ok and a <= b
+                elif isinstance(o, ast.GtE):
+                    ok = ok and a >= b
+                else:
+                    raise NoEval(norm(e)[:60])
+            return ok
+        raise NoEval(norm(e)[:60])
+
+    def run_chain(node: ast.If, env):
+        cur = node
+        while True:
+            if ev(cur.test, env):
+                rets = [s_ for s_ in cur.body if isinstance(s_, ast.Return)]
+                if len(cur.body) == 1 and rets and isinstance(rets[0].value, ast.Name):
+                    return rets[0].value.id
+                raise NoEval(f"arm `{norm(cur.test)[:40]}` does not return a code")
+            if len(cur.orelse) == 1 and isinstance(cur.orelse[0], ast.If):
+                cur = cur.orelse[0]
+            elif not cur.orelse:
+                return "TRUTH_VALUE_UNKNOWN"
+            else:
+                rets = [s_ for s_ in cur.orelse if isinstance(s_, ast.Return)]
+                if rets and isinstance(rets[0].value, ast.Name):
+                    return rets[0].value.id
+                raise NoEval("else arm does not return a code")
+
+    def kleene(op, a, b):
+        if op == "or":
+            return True if (a is True or b is True) else False if (a is False and b is False) else None
+        return False if (a is False or b is False) else True if (a is True and b is True) else None
+
+    for op, chain in sorted(chains.items()):
+        wrong = []
+        try:
+            for l in TRUTH_CODES:
+                for r_ in TRUTH_CODES:
+                    got = run_chain(chain, {"left": l, "right": r_, "results": {l, r_}})
+                    if got not in TRUTH_CODES:
+                        raise NoEval(got)
+                    claim, truth = TRUTH_CODES[got], kleene(op, TRUTH_CODES[l], TRUTH_CODES[r_])
+                    if claim is not None and claim is not truth:
+                        wrong.append(f"{l} {op} {r_} -> {got}")
+        except NoEval as e:
+            raise AnalysisError(f"infer_condition_value: cannot evaluate the `{op}` chain: {e}")
+        key = f"infer_condition_value: the `{op}` table claims true/false only where three-valued logic does"
+        if not wrong:
+            r9.ok(key, f.loc(chain))
+        else:
+            r9.violation(key, f.loc(chain), f"{len(wrong)} operand pairs are decided although an operand that is not known statically can make the condition go the other way, e.g. {wrong[:3]}: the corresponding branch is marked unreachable and skipped by the checker")
